@@ -366,6 +366,49 @@ func (c *Ctx) ruleLastActionWins() {
 			}
 		}
 	}
+	// the recording is unconditional: on the way from the entry to the map update only the loop head, the nil test
+	// and the End-of-RIB test may branch
+	cond := ""
+	for _, b := range fn.Blocks {
+		for _, in := range b.Instrs {
+			mu, ok := in.(*ssa.MapUpdate)
+			if !ok {
+				continue
+			}
+			call, ok := mu.Key.(*ssa.Call)
+			if !ok || call.Call.StaticCallee() == nil || call.Call.StaticCallee().Name() != "GetLocalKey" {
+				continue
+			}
+			for d := b.Idom(); d != nil; d = d.Idom() {
+				iff, ok := d.Instrs[len(d.Instrs)-1].(*ssa.If)
+				if !ok {
+					continue
+				}
+				okCond := false
+				switch x := iff.Cond.(type) {
+				case *ssa.BinOp:
+					if isNilConst(x.X) || isNilConst(x.Y) {
+						okCond = true // path == nil
+					}
+					if _, isPhi := x.X.(*ssa.Phi); isPhi || lenOf(x.Y) != nil || lenOf(x.X) != nil {
+						okCond = true // loop head: index < len
+					}
+				case *ssa.Call:
+					if x.Call.StaticCallee() != nil && x.Call.StaticCallee().Name() == "IsEOR" {
+						okCond = true
+					}
+				}
+				if !okCond {
+					cond = c.P.InstrPos(iff)
+				}
+			}
+		}
+	}
+	if cond != "" {
+		r.Bad(rule, fk, "recording is unconditional", c.P.Pos(fn.Pos()), "the pass that records the last action per key only runs under a condition (at "+cond+"): batches that do not satisfy it are not de-duplicated, and the packers emit groups in map order, so a superseded announcement can be sent after the current one")
+	} else if upd {
+		r.Ok(rule, fk, "recording is unconditional", c.P.Pos(fn.Pos()), "only the loop head, nil and End-of-RIB tests precede it")
+	}
 	if upd && cmp {
 		r.Ok(rule, fk, "last[path.GetLocalKey()] = path; keep iff last[key] == path", c.P.Pos(fn.Pos()), "")
 	} else {
@@ -387,6 +430,7 @@ func init() {
 			c.ruleExtendedMessageTypes()
 			c.ruleOversizeContained()
 			c.ruleLastActionWins()
+			c.ruleSendSideCopy()
 		},
 	})
 }
